@@ -32,16 +32,16 @@ if delay:
         return orig(data)
     be.apply_nn_gate = slow
 sx, sz = oqupy.operators.sigma("x"), oqupy.operators.sigma("z")
-L = 4
+L = int(sys.argv[3])
 chain = oqupy.SystemChain([2] * L)
 for i in range(L):
     chain.add_site_hamiltonian(i, (0.5 + 0.1 * i) * sz)
 for i in range(L - 1):
     chain.add_nn_hamiltonian(i, 0.7 * sx, sx)
     chain.add_nn_hamiltonian(i, 0.2 * sz, sz)
-mps = oqupy.AugmentedMPS([oqupy.operators.spin_dm("z+"), oqupy.operators.spin_dm("x+"), oqupy.operators.spin_dm("z-"), oqupy.operators.spin_dm("y+")])
+mps = oqupy.AugmentedMPS([oqupy.operators.spin_dm(["z+", "x+", "z-", "y+", "x-", "y-"][i % 6]) for i in range(L)])
 cfg = {} if mode == "none" else {"parallel": mode}
-p = oqupy.PtTebd(mps, chain, [None] * L, oqupy.PtTebdParameters(dt=0.1, order=2, epsrel=1e-9), dynamics_sites=[0, 1, 2, 3, (1, 2)], backend_config=cfg)
+p = oqupy.PtTebd(mps, chain, [None] * L, oqupy.PtTebdParameters(dt=0.1, order=2, epsrel=1e-9), dynamics_sites=list(range(L)) + [(L - 2, L - 1)], backend_config=cfg)
 r = p.compute(3, progress_type="silent")
 out = []
 for k in r["dynamics"]:
@@ -51,9 +51,9 @@ print("RESULT " + json.dumps(out))
 '''
 
 
-def run_mode(mode, delay=False):
+def run_mode(mode, delay=False, L=4):
     env = dict(os.environ, PYTHONPATH=REPO, PYTHONHASHSEED="0")
-    p = subprocess.run([sys.executable, "-c", CHILD, mode, "delay" if delay else "no"], env=env, stdout=subprocess.PIPE,
+    p = subprocess.run([sys.executable, "-c", CHILD, mode, "delay" if delay else "no", str(L)], env=env, stdout=subprocess.PIPE,
                        stderr=subprocess.PIPE, text=True, timeout=600)
     for l in p.stdout.splitlines():
         if l.startswith("RESULT "):
@@ -433,17 +433,23 @@ def run(chk):
                      f"from the one on a freshly built equal chain by {np.abs(second - fresh2).max():.2e}", info)
 
     # ---- (d) execution modes, each in a fresh interpreter --------------------------------------
-    base, err = run_mode("none")
-    if base is None:
-        chk.disagree("execution-mode harness", f"sequential child failed: {err}")
-    else:
-        modes = [("multithread", False), ("multiprocess", False), ("multithread", True)] + ([("multiprocess", True)] if thorough else [])
+    # chain length 4 in every mode (also with delayed completion); the shortest chains (2: one of the two gate layers is EMPTY; 3)
+    # and, in the thorough tier, 5 and 6 in both parallel modes
+    plan = [(4, [("multithread", False), ("multiprocess", False), ("multithread", True)] + ([("multiprocess", True)] if thorough else [])),
+            (2, [("multithread", False), ("multiprocess", False)]), (3, [("multithread", False)] + ([("multiprocess", False)] if thorough else []))]
+    if thorough:
+        plan += [(5, [("multithread", False)]), (6, [("multiprocess", False)])]
+    for L_, modes in plan:
+        base, err = run_mode("none", L=L_)
+        if base is None:
+            chk.disagree("execution-mode harness", f"sequential child failed (chain length {L_}): {err}")
+            continue
         for mode, delay in modes:
-            got, err = run_mode(mode, delay)
+            got, err = run_mode(mode, delay, L=L_)
             chk.search_cases += 1
             chk.count("mode_" + mode)
-            info = {"kind": "execution-mode", "mode": mode, "random_completion_order": delay}
-            chk.case(info, ("mode", mode, delay))
+            info = {"kind": "execution-mode", "mode": mode, "random_completion_order": delay, "chain_length": L_}
+            chk.case(info, ("mode", mode, delay, L_))
             if got is None:
                 chk.fail("execution-mode-unusable:" + mode, f"backend_config={{'parallel': '{mode}'}} fails in a fresh interpreter: {err.strip().splitlines()[-1] if err else ''}", info)
             elif got.shape != base.shape or np.abs(got - base).max() > 1e-7:
